@@ -381,7 +381,9 @@ PROPS = {
                      {'engine': 'python', 'name': 'cpython_orderbook', 'n': 60, 'bound': '60 seeded random call sequences (5-40 calls: place incl. off-grid and market, cancel, modify, toggles) on bourse.core.OrderBook through the compiled extension module under CPython: ids, documented tuple positions and encodings, ValueError / OverflowError leave the object unchanged, every getter equals the value recomputed from get_orders()'},
                      {'engine': 'python', 'name': 'cpython_rust_twin', 'mode': 'C18twin', 'n': 600, 'n_thorough': 4000, 'needs_replay': True, 'bound': '600 (thorough: 4000) seeded random call scripts (10-60 calls; half of them confined to one bid and one ask price so that queue position is visible in the trades) over the non-numpy API, alternately on bourse.core.OrderBook (place incl. market / off-grid / lowest prices, cancel, modify incl. restated price or volume and None, set_time, toggles) and bourse.core.StepEnv (the same plus step, several steps per script, batches whose processing order is visible), executed on the compiled extension module under CPython and, call by call, on the Rust core (bourse_book::OrderBook, bourse_de::Env with Xoroshiro128StarStar::seed_from_u64(seed)) by the replay runner: every return value, ValueError, and after every call orders, trades, statuses, touch prices, volumes, time, traded volume and every history series must agree, in the documented encodings'}],
             'design': '§5 C18'},
-    'C20': {'legs': [{'engine': 'derive'}], 'design': '§5 C20'},
+    'C20': {'legs': [{'engine': 'derive'},
+                     R('derive_execution', ['derive-twin'], '13 struct shapes (adjacent members of one type, A-B-A, runs, nested sets, attributes / doc comments / cfg, parenthesised types, type macros, `$t:ty` fragments of a declarative macro; both derives) compiled with the REAL derive macros of the working tree and executed twice each: every member is a probe that draws from the shared generator and places an order carrying its id and the draw; the order list must be the hand-written sequence - every member once, in declaration order, same environment and generator')],
+            'design': '§5 C20'},
     'C19': {'legs': [V('py'), V('env'), V('book'),
                      {'engine': 'python', 'name': 'cpython_arrays_and_dictionary', 'n': 40, 'bound': '40 seeded random simulations (3-8 steps, ticks 1/2/5; the book mid-range, at the bottom of the price range with bids down to price 0, or at its top) on StepEnv and StepEnvNumpy through the compiled extension module: both observation arrays, get_prices / get_volumes and EVERY key and series of the market-data dictionary against quantities recomputed from get_orders() / get_trades() after each step'}],
             'design': '§5 C19'},
@@ -939,6 +941,9 @@ def witness_search(pid, new, tier, seed, replay_path):
         cmds.append(cmd)
     if want_env:
         cmds.append([b, 'search', '--env', '--prop', pid, '--seed', str(seed), '--random', str(nrand), '--budget', str(budget), '--out', out])
+        if pid == 'C05':
+            # inside the step-overrun domain, but accepting only failures of OTHER clauses than the one the recorded finding fails ("all other guarantees continue to hold")
+            cmds.append([b, 'search', '--env', '--prop', pid, '--overrun-other', '--seed', str(seed), '--random', str(nrand), '--budget', str(budget), '--out', out])
     if pid in MARKET_SEARCH_PROPS:
         # direct operations on Market<3, 2> against stand-alone books (C12 creation rule, C13 toggles incl. single books, C14 independence and all-asset queries)
         cmds.append([b, 'search', '--market', '--prop', pid, '--seed', str(seed), '--random', str(nrand), '--budget', str(budget), '--out', out])
